@@ -379,8 +379,9 @@ type BlockCtx struct {
 	n          int                                            // index of the next transaction
 	ephSC      map[types.SiacoinOutputID]types.SiacoinElement // outputs created earlier in this block
 	ephSF      map[types.SiafundOutputID]types.SiafundElement
-	curFC      map[types.FileContractID]types.FileContract   // v1 contracts as they stand within this block
-	curV2      map[types.FileContractID]types.V2FileContract // v2 revisions within this block
+	curFC      map[types.FileContractID]types.FileContract          // v1 contracts as they stand within this block
+	curV2      map[types.FileContractID]types.V2FileContract        // v2 revisions within this block
+	ephV2      map[types.FileContractID]types.V2FileContractElement // v2 contracts formed in this block
 	V1         []types.Transaction
 	V2         []types.V2Transaction
 	newFC      map[types.FileContractID]bool
@@ -393,7 +394,7 @@ type BlockCtx struct {
 func (s *Sim) NewBlockCtx() *BlockCtx {
 	return &BlockCtx{s: s, height: int(s.child()), ephSC: map[types.SiacoinOutputID]types.SiacoinElement{},
 		ephSF: map[types.SiafundOutputID]types.SiafundElement{}, curFC: map[types.FileContractID]types.FileContract{},
-		curV2: map[types.FileContractID]types.V2FileContract{}, newFC: map[types.FileContractID]bool{}, reg: map[SID][32]byte{}, pool: s.CS.SiafundTaxRevenue}
+		curV2: map[types.FileContractID]types.V2FileContract{}, ephV2: map[types.FileContractID]types.V2FileContractElement{}, newFC: map[types.FileContractID]bool{}, reg: map[SID][32]byte{}, pool: s.CS.SiafundTaxRevenue}
 }
 
 func (s *Sim) fileRoot(size uint64) types.Hash256 {
@@ -646,12 +647,17 @@ func (b *BlockCtx) Add(t AbsTx) (err error) {
 				e.ClaimStart = b.pool
 				b.ephSF[e.ID] = e
 			}
-			for _, fc := range txn.FileContracts {
+			for i, fc := range txn.FileContracts {
 				b.pool = b.pool.Add(b.s.CS.V2FileContractTax(fc))
+				// a contract formed in this block: an honest presentation of it as a parent (no accumulator position yet)
+				id := txn.V2FileContractID(txn.ID(), i)
+				b.ephV2[id] = types.V2FileContractElement{ID: id, StateElement: types.StateElement{LeafIndex: types.UnassignedLeafIndex}, V2FileContract: fc}
 			}
 			for _, r := range txn.FileContractResolutions {
 				if ren, ok := r.Resolution.(*types.V2FileContractRenewal); ok {
 					b.pool = b.pool.Add(b.s.CS.V2FileContractTax(ren.NewContract))
+					id := r.Parent.ID.V2RenewalID()
+					b.ephV2[id] = types.V2FileContractElement{ID: id, StateElement: types.StateElement{LeafIndex: types.UnassignedLeafIndex}, V2FileContract: ren.NewContract}
 				}
 			}
 			mat := uint64(b.height) + s.Net.MaturityDelay
@@ -940,6 +946,9 @@ func (b *BlockCtx) buildV2(t AbsTx) (types.V2Transaction, error) {
 			return e.Copy(), nil
 		}
 		if e, ok := s.Store.GoneV2FC[types.FileContractID(rid)]; ok {
+			return e.Copy(), nil
+		}
+		if e, ok := b.ephV2[types.FileContractID(rid)]; ok {
 			return e.Copy(), nil
 		}
 		return types.V2FileContractElement{}, ErrUnknown{"no element for contract " + cid.String()}
